@@ -15,17 +15,19 @@ RULE = ("Hypothesis generates a valid model (general generator plus non-interact
         "susceptibilities with the three subtraction overloads, ensemble averages, GF and 2PGF containers (fill/prepareAll/computeAll/"
         "evaluate).  The scenario runs in the ASan+UBSan build with all asserts enabled, twice with different allocator fill bytes (0x00 / "
         "0xFF, i.e. every uninitialised double is +0.0 in one run and a NaN in the other, so that it survives a multiplication by zero): any sanitizer report, Eigen bounds assertion, or fatal signal is a failure, and the two runs must give identical answers "
-        "(otherwise uninitialised storage influenced a result).  Non-trivial: the scenario reaches G/chi/susceptibility computation for an "
+        "(otherwise uninitialised storage influenced a result).  About 1 % (quick) / 4 % (thorough) of the scenarios are run a third time, uninstrumented, under "
+        "valgrind memcheck; every memcheck error with a pomerol frame in its stack is a failure (the sanitizers do not see accesses made inside the "
+        "uninstrumented libstdc++ on the library's behalf, e.g. advancing an iterator of an erased std::map node).  Non-trivial: the scenario reaches G/chi/susceptibility computation for an "
         "operator pair with different indices, or an empty/default frequency list, or a model with a one-dimensional block.")
 ASSUMPTIONS = ["pomerol's own debug assertions (TermList::check_terms, Hermiticity of a block) are not UB: an abort from them is counted as class library-assert and not judged here (the library's release build compiles them out; values are judged by the other properties)",
                "leaks are outside the statement (detect_leaks=0)", "uninitialised reads are visible only if they change an answer under the two fill patterns (no MSan-instrumented libstdc++/Boost/MPI in this image)",
                "OMP_NUM_THREADS=1"]
 CONFIG = {
-    "quick": {"flavours": ["real-san", "complex-san"], "shards": 8, "examples": 500, "min_nontrivial": 200, "budget_s": 100},
-    "thorough": {"flavours": ["real-san", "complex-san", "fuzz"], "shards": 16, "examples": 1500, "min_nontrivial": 3000, "budget_s": 3400},
+    "quick": {"flavours": ["real-san", "complex-san", "real", "complex"], "shards": 8, "examples": 500, "min_nontrivial": 200, "budget_s": 100},
+    "thorough": {"flavours": ["real-san", "complex-san", "real", "complex", "fuzz"], "shards": 16, "examples": 1500, "min_nontrivial": 3000, "budget_s": 3400},
 }
-REQUIRED_CLASSES = {"quick": ["offdiag-gf", "offdiag-susc", "chi-default", "chi-empty-table", "1x1-block", "sparse-family", "c4-container", "vertex"],
-                    "thorough": ["offdiag-gf", "offdiag-susc", "chi-default", "chi-empty-table", "1x1-block", "sparse-family", "c4-container", "vertex", "truncate"]}
+REQUIRED_CLASSES = {"quick": ["offdiag-gf", "offdiag-susc", "chi-default", "chi-empty-table", "1x1-block", "sparse-family", "c4-container", "vertex", "valgrind"],
+                    "thorough": ["offdiag-gf", "offdiag-susc", "chi-default", "chi-empty-table", "1x1-block", "sparse-family", "c4-container", "vertex", "truncate", "valgrind"]}
 
 
 @st.composite
@@ -68,7 +70,7 @@ def strategy_(draw, tier):
                           "mode": draw(st.sampled_from(["table", "table", "default", "empty", "notable"])), "clear": draw(st.integers(0, 1)),
                           "triples": draw(st.lists(gen.triple_st(-3, 3), min_size=1, max_size=3))})
         elif k == "susc":
-            steps.append({"k": "susc", "abcd": list(draw(gen.susc_quad_st(N))), "sub": draw(st.integers(0, 4)),
+            steps.append({"k": "susc", "abcd": list(draw(gen.susc_quad_st(N))), "sub": draw(st.integers(0, 5)),
                           "n": draw(st.lists(st.integers(-3, 3), min_size=1, max_size=3)), "tau": draw(st.booleans())})
         elif k == "vertex":
             steps.append({"k": "vertex", "ijkl": [draw(ix), draw(ix), draw(ix), draw(ix)], "W": draw(st.integers(0, 2))})
@@ -85,7 +87,11 @@ def strategy_(draw, tier):
             steps.append({"k": "truncate", "eps": draw(st.sampled_from([0.0, 1e-12, 1e-6, 1e-3, 0.1]))})
         else:
             steps.append({"k": "basic"})
-    return {"model": mdl, "steps": steps}
+    # a few scenarios are run once more, uninstrumented, under valgrind memcheck: it sees what the sanitizers cannot (accesses made
+    # inside the uninstrumented libstdc++/Boost on behalf of the library, e.g. incrementing an iterator of an erased std::map node,
+    # and every use of an uninitialised value)
+    vg = draw(st.sampled_from([False] * (59 if tier == "quick" else 19) + [True]))
+    return {"model": mdl, "steps": steps, "valgrind": bool(vg)}
 
 
 def strategy(tier):
@@ -145,7 +151,7 @@ def build_queries(case):
                 classes.append("offdiag-chi")
         elif k == "susc":
             a, b, c, d = s["abcd"]
-            sub = {0: "", 1: " sub 1", 2: " sub 2 0.25 0.0 -0.5 0.125", 3: " sub 3", 4: " sub 4"}[s["sub"]]
+            sub = {0: "", 1: " sub 1", 2: " sub 2 0.25 0.0 -0.5 0.125", 3: " sub 3", 4: " sub 4", 5: " sub 5"}[s["sub"]]
             sel = " n %d %s" % (len(s["n"]), " ".join(map(str, s["n"])))
             if s["tau"]:
                 sel += " tau 3 0.0 %r %r" % (beta / 2, beta)
@@ -188,6 +194,44 @@ def pre_campaign(tier, seed):
     return {"failures": failures, "coverage": {"libfuzzer": stats}, "evaluations": stats["executions"], "nontrivial_hashes": [], "classes": {"libfuzzer-executions": stats["executions"]}}
 
 
+VG_KINDS = ("Invalid read", "Invalid write", "Invalid free", "Mismatched free", "Conditional jump or move depends on uninitialised",
+            "Use of uninitialised value", "Source and destination overlap", "Jump to the invalid address", "Argument ")
+
+
+def valgrind_run(ctx, sc, flavour):
+    """one-shot uninstrumented run of the scenario under memcheck; returns the text of the first error block that has a pomerol (or
+    runner) frame, or None.  Reports without such a frame (MPI start-up, the dynamic loader) are not judged; a timeout is inconclusive."""
+    import os, subprocess, drive
+    binp = os.path.join(drive.build(flavour), "pomrun")
+    spath = os.path.join(ctx.wd, "vg-s.txt"); logp = os.path.join(ctx.wd, "vg.log")
+    with open(spath, "w") as f:
+        f.write(sc.text())
+    env = dict(os.environ); env.update(drive.MPI_ENV); env["OMP_NUM_THREADS"] = "1"
+    cmd = ["valgrind", "-q", "--leak-check=no", "--num-callers=30", "--log-file=" + logp, binp, "--file", spath, "--out", os.path.join(ctx.wd, "vg-out")]
+    try:
+        subprocess.run(cmd, stdout=subprocess.DEVNULL, stderr=subprocess.DEVNULL, env=env, cwd=ctx.wd, timeout=900)
+    except subprocess.TimeoutExpired:
+        return None
+    try:
+        text = open(logp, errors="replace").read()
+    except OSError:
+        return None
+    blocks = []; cur = []
+    for l in text.splitlines():
+        body = l.split("== ", 1)[1] if "== " in l else ""
+        if body.strip() == "":
+            if cur:
+                blocks.append(cur); cur = []
+        else:
+            cur.append(body)
+    if cur:
+        blocks.append(cur)
+    for b in blocks:
+        if b and b[0].startswith(VG_KINDS) and any(("Pomerol::" in x or "pMPI::" in x or "pomrun.cpp" in x) for x in b):
+            return "\n".join(b[:14])
+    return None
+
+
 def execute(case, ctx):
     if case.get("kind") == "fuzz-bytes":
         import drive
@@ -222,6 +266,12 @@ def execute(case, ctx):
         d["what"] = "answers depend on the allocator fill byte (uninitialised storage): line %d '%s': %s vs %s" % (
             ln, a.sc.lines[ln - 1][:100], json.dumps(a.ans.by_line.get(ln))[:300], json.dumps(b.ans.by_line.get(ln))[:300])
         return Result("fail", classes + ["uninitialised"], True, d, "uninitialised:" + a.sc.lines[ln - 1].split()[0])
+    if case.get("valgrind"):
+        classes.append("valgrind")
+        bad = valgrind_run(ctx, a.sc, "complex" if mdl["cplx"] else "real")
+        if bad:
+            d = a.describe(); d["what"] = "valgrind memcheck reports an error with a pomerol frame: " + bad[:1500]
+            return Result("fail", classes + ["memcheck"], True, d, "memcheck:" + bad.split("\n")[0][:60])
     st_ = a.q("states")
     bl = a.q("blocks")
     if bl and "blocks" in bl and any(len(x) == 1 for x in bl["blocks"]):
